@@ -277,22 +277,25 @@ fn part_queries(out: &mut Out, r: &mut Rng, a: &Args) {
         run_long(out, None, &t, &expand(&t), "q_long");
     }
     // capacity: 32768 live requests, then insert must fail; removals make room again
-    let caps: Vec<(usize, Vec<String>)> = vec![
+    let mut caps: Vec<(usize, Vec<String>)> = vec![
         (32768, vec!["i1".into(), "r5".into(), "i2".into(), "i3".into(), "r32768".into(), "r7".into(), "r8".into(), "i4".into(), "i5".into(), "i6".into()]),
         (32767, vec!["i1".into(), "i2".into(), "r0".into(), "i3".into(), "i4".into()]),
-        (32768, vec!["X0:16384:2".into(), "F10:70000".into(), "i1".into()]),
-        (32768, vec!["X0:16385:2".into(), "F10:70000".into(), "d".into(), "i1".into()]),
-        (32760, vec!["F20:90000".into(), "X32700:90:1".into(), "F100:91000".into()]),
+        (32760, vec!["F12:90000".into(), "X32700:30:1".into(), "F40:91000".into()]),
     ];
+    if a.thorough {
+        // half of the slots freed again: the scan branch at full length (slow in the list model)
+        caps.push((32768, vec!["X0:16384:2".into(), "F10:70000".into(), "i1".into()]));
+        caps.push((32768, vec!["X0:16385:2".into(), "F10:70000".into(), "d".into(), "i1".into()]));
+    }
     for (n, t) in &caps { run_long(out, Some(*n), t, &expand(t), "q_capacity"); }
     for _ in 0..(if a.thorough { 20 } else { 3 }) {
         let n = 32768 - r.below(3) as usize;
         let mut t: Vec<String> = Vec::new();
-        for _ in 0..r.range(3, 12) {
+        for _ in 0..r.range(3, 10) {
             match r.below(3) {
                 0 => t.push(format!("i{}", 80000 + r.below(100))),
                 1 => t.push(format!("r{}", r.below(32800))),
-                _ => t.push(format!("X{}:{}:{}", r.below(32768), r.range(1, 40), r.range(1, 3))),
+                _ => t.push(format!("X{}:{}:{}", r.below(32768), r.range(1, 6), r.range(1, 3))),
             }
         }
         run_long(out, Some(n), &t, &expand(&t), "q_capacity");
